@@ -64,3 +64,24 @@ Lemma pipe_maximal_run_l (l : list Z) W tr (s : state Z Z) :
   0 < W -> run Z Z fZ 0%Z (init Z Z l W) tr = Some s -> dropped s = false ->
   (forall lab, lab <> Drop -> step Z Z fZ 0%Z s lab = None) -> out s = map fZ l.
 Proof. intros HW H Hd Hno. apply (pipe_terminal_l Z Z fZ 0%Z l W tr s HW H Hd Hno). Qed.
+
+(** ** what an accepting verdict of the executable statement means *)
+Lemma zlist_eqb_eq a b : zlist_eqb a b = true <-> a = b.
+Proof.
+  revert b; induction a as [|x a IH]; intros [|y b]; cbn; split; intros H; try congruence; try reflexivity.
+  - apply andb_true_iff in H as [H1 H2]. apply Z.eqb_eq in H1. apply IH in H2. congruence.
+  - injection H as -> ->. rewrite Z.eqb_refl. cbn. apply IH. reflexivity.
+Qed.
+
+Lemma check_C05_sound_l v o : check_C05 v o = true ->
+  v_list v_z (v_nth 1 o) = map fZ (v_list v_z (v_nth 1 v))
+  /\ v_bool (v_nth 2 o) = true
+  /\ v_list v_z (v_nth 3 o) = repeat 1%Z (length (v_list v_z (v_nth 1 v))).
+Proof.
+  unfold check_C05. intros H.
+  destruct o as [|l]; [discriminate|].
+  destruct l as [|a [|b [|c [|d [|e r]]]]]; try discriminate;
+    destruct a; try discriminate; destruct b; try discriminate; destruct c; try discriminate; destruct d; try discriminate.
+  apply andb_true_iff in H as [H H3]. apply andb_true_iff in H as [H1 H2].
+  apply zlist_eqb_eq in H1, H3. auto.
+Qed.
